@@ -133,7 +133,7 @@ def gen_files(names):
     return True, out
 
 
-ALL_GENS = ["registry", "stateinv", "maprange", "mutsites"]
+ALL_GENS = ["registry", "ruletable", "ir", "stateinv", "maprange", "mutsites"]
 
 
 def coq_make(timeout=1500):
